@@ -10,7 +10,7 @@ OPSYM = {"add": "+", "sub": "-", "mul": "*", "div": "/", "mod": "%", "pow": "**"
 ARITH = ("add", "sub", "mul", "div", "mod", "pow")
 CMP = ("lt", "le", "gt", "ge", "eq")
 INTONLY = ("shl", "shr", "and", "or", "xor", "andnot")
-VARIANTS = ("lit", "typed", "union", "call")
+VARIANTS = ("lit", "typed", "union", "call", "ucall")
 
 
 def fbits(x):
@@ -88,19 +88,22 @@ def variant_code(i, v, op, lk, a, rk, b):
     """one println per (case, variant): '<i> <variant> <inspect of the result>'"""
     sym = OPSYM[op]
     ty = {"I": "Int", "F": "Float"}
-    n = "%s%d" % (v[0], i)
+    n = "%s%d" % (v[:2], i)
     if v == "lit":
         return 'println("%d lit " + (%s %s %s).inspect)\n' % (i, lit(lk, a), sym, lit(rk, b))
     if v == "typed":
         return ('var x%s: %s = %s\nvar y%s: %s = %s\nprintln("%d typed " + (x%s %s y%s).inspect)\n'
                 % (n, ty[lk], lit(lk, a), n, ty[rk], lit(rk, b), i, n, sym, n))
-    if v == "union":
+    if v in ("union", "ucall"):
         if op in ("and", "or", "xor", "andnot"):
             return None           # no union of builtin types admits these operators
         if op in ("shl", "shr"):
             lt, rt = "Int | Int64", "Int"
         else:
             lt = rt = "Int | Float"
+        if v == "ucall":          # a.op(b) on union-typed operands: resolved at run time
+            return ('var x%s: %s = %s\nvar y%s: %s = %s\nprintln("%d ucall " + x%s.%s(y%s).inspect)\n'
+                    % (n, lt, lit(lk, a), n, rt, lit(rk, b), i, n, sym, n))
         return ('var x%s: %s = %s\nvar y%s: %s = %s\nprintln("%d union " + (x%s %s y%s).inspect)\n'
                 % (n, lt, lit(lk, a), n, rt, lit(rk, b), i, n, sym, n))
     if v == "call":
@@ -284,7 +287,8 @@ def run_resumable(elk, batches, wd, variants, timeout, max_rounds=6):
             if i is None:
                 continue
             msg = next((x for x in out.splitlines() if "panic" in x or "rror" in x or "FAIL" in x or "signal" in x), out[-160:])
-            if cls == "timeout" or rnd == max_rounds or (not seen and rnd > 0):
+            compile_error = not seen and "[FAIL]" in out and "Stack trace" not in out     # nothing ran: not a crash
+            if cls == "timeout" or rnd == max_rounds or compile_error:
                 lost += len(stmts) - i
                 log.append("%s: %s after %d statements: %s" % (name, cls, i, msg.strip()[:300]))
                 continue
@@ -324,9 +328,15 @@ def grid_stream(ctx, m, elk):
     direct = {str(i): "I %d" % (1 if c[4] <= 0 else pow(c[2], c[4])) for i, c in enumerate(cases)
               if c[0] == "pow" and c[1] == "I" and c[3] == "I" and c[4] > 66}
     mids = [i for i in ids if i not in direct]
-    rc, model, mout = vlib.run_model(m, mids, inputs, timeout=900)
-    if rc != 0 or len(model) != len(mids):
-        ctx.broke("c08.grid: model driver failed", mout[-2000:])
+    parts = vlib.parallel_map(lambda ch: vlib.run_model(m, ch, inputs, timeout=900), [mids[j::8] for j in range(8)], 8)
+    model = {}
+    for rc, mo, mout in parts:
+        model.update(mo)
+        if rc != 0:
+            ctx.broke("c08.grid: model driver failed", mout[-2000:])
+            return
+    if len(model) != len(mids):
+        ctx.broke("c08.grid: model driver answered %d of %d cases" % (len(model), len(mids)))
         return
     model.update(direct)
     bad_model = [i for i in ids if model[i].startswith(("paths-disagree", "model-failure", "bad-input"))]
@@ -347,7 +357,7 @@ def grid_stream(ctx, m, elk):
     if lost:
         ctx.broke("c08.grid: %d statements could not be run (program died or timed out and was not isolated)" % lost,
                   "\n".join(log[:20]))
-    evals, dist, mism, samples, ndist = 0, {}, 0, [], 0
+    evals, dist, mism, samples, ndist, perkey = 0, {}, 0, [], 0, {}
     for i, c in enumerate(cases):
         op, lk, a, rk, b = c
         outs = {v: got[(i, v)] for v in GRIDV if (i, v) in got}
@@ -363,12 +373,14 @@ def grid_stream(ctx, m, elk):
         bad = grid_key(c, outs, vals, canon_model(model[str(i)]))
         if bad:
             mism += 1
-            if mism <= 300:
+            perkey[bad[0]] = perkey.get(bad[0], 0) + 1
+            if perkey[bad[0]] <= 3 and len(perkey) <= 300:      # the first cases of every class
                 ctx.fail(bad[0], "%s %s %s: %s" % (glit(lk, a), OPSYM[op], glit(rk, b), bad[1]), stream=stream, case=inputs[str(i)],
                          impl=outs, model=model[str(i)],
                          oracle="every form (literals=folded, typed locals=typed opcode, union-typed locals=generic opcode, "
                                 "a.op(b) on typed operands=statically bound overload, a.op(b) on union-typed operands=run-time "
                                 "dispatch) must print the same result or raise the same error, equal to the model's")
+    ctx.extra["c08.grid.failing_cases_per_class"] = perkey
     ctx.stream(stream, evals, ndist,
                "EXHAUSTIVE grid, no sampling: 17 operators x every ordered pair of Int corners (0, +-1, +-2, +-(2^31|2^32|2^63|2^64 + "
                "-2..2); shifts also by +-31..66, ** also by 3..65) and the 11 arithmetic/comparison operators x Int corners (also "
@@ -385,18 +397,34 @@ def grid_stream(ctx, m, elk):
 
 def run(ctx):
     ctx.explanation = (
-        "Proved (Coq): on a model of the five evaluation paths of a binary operator over Int (small/big) and Float operands - "
+        "Proved (Coq): on a model of the six evaluation paths of a binary operator over Int (small/big) and Float operands - "
         "generic opcode (value.*Val), constant folder, typed Int opcodes, typed Float opcodes (after "
-        "fixes/C08-typed-float-opcodes.patch), explicit method call incl. the op@1/op@2 overloads - every path returns what the "
-        "generic path returns for all 17 operators (+ - * / % ** > >= < <= == << >> & | ^ &~) and all operand values admitted by "
-        "the type checker; Int arithmetic is the C06 model, IEEE arithmetic is abstract (the equalities hold for any float "
-        "semantics). NOT proved: that the Go paths equal the model (c08.variants runs 3-4 program variants per case on the real "
-        "binary and requires all outputs equal to each other and to the extracted model); the compiler's opcode SELECTION is wrong for `==` with a Float on the left (EQUAL_INT, crashes: C08_typed_selection_refuted, known finding eq:F/F:variant-crash:typed; C08_typed_selection_partial excludes exactly that class); unary operators, != and <=>, sized "
-        "integer types, BigFloat and arbitrary std methods are not modelled (partial, as in DESIGN).")
+        "fixes/C08-typed-float-opcodes.patch), explicit method call incl. the op@1/op@2 overloads, and the Int-only helpers "
+        "value.XInts -> SmallInt.XInt / BigInt.XInt behind the STATICALLY BOUND overload Int#op@1 (separate Go functions: "
+        "C08_static_overload_eq) - every path returns what the generic path returns for all 17 operators (+ - * / % ** > >= < <= "
+        "== << >> & | ^ &~) and all operand values admitted by the type checker; Int arithmetic is the C06 model, Int/Float "
+        "comparisons are the exact three-way comparison of value/exact_compare.go (modelled in Coq on the binary64 bit pattern), "
+        "the remaining IEEE arithmetic is abstract (the equalities hold for any float semantics). NOT proved: that the Go paths "
+        "equal the model. That is tested on every run by two program-level streams on the real binary, each case in up to 5 forms "
+        "(literals = folded, typed locals = typed opcode, union-typed locals = generic opcode, a.op(b) on typed locals = statically "
+        "bound native overload, a.op(b) on union-typed locals = run-time dispatch), all outputs equal to each other and to the "
+        "extracted model: c08.grid is EXHAUSTIVE over a grid of corner operands (every ordered pair of 45 Int corners around 0, "
+        "2^31, 2^32, 2^63, 2^64 x 17 operators; Int corners x Float corners (+-0.0, +-1.5, 2^53-1..2^53+2, 2^63) in both orders and "
+        "Float x Float x 11 operators; ZeroDivisionError compared as an outcome), c08.variants is seeded random. The Go backend's use of "
+        "value.XInts for all 17 operators is not exercised here (C06's c06.val calls value.*Ints directly, C09 runs native builds). "
+        "Defects: the compiler's opcode SELECTION is wrong for `==` with a Float on the left (EQUAL_INT, crashes: "
+        "C08_typed_selection_refuted, known finding eq:F/F:variant-crash:typed; C08_typed_selection_partial excludes exactly that class; "
+        "the grid leaves that one form out); a constant-folded Float result equal to -0.0 is emitted as FLOAT_0 = +0.0 (known finding "
+        "negzero-result:variants-differ:lit, found by c08.grid, fixes/C08-negative-zero-constant.patch; constant EMISSION is not "
+        "modelled: `fold` is the value the folder computes). Unary operators, != and <=>, sized integer types, BigFloat and arbitrary "
+        "std methods are not modelled (partial, as in DESIGN).")
     ctx.trusted_base += ["IEEE-754 binary64 arithmetic / math.Mod / Int->Float conversion: Section variables in Coq, instantiated with "
                          "OCaml native doubles in the driver; float ** is compared between variants only",
-                         "the bytecode compiler's choice of opcode per static type (literals fold, Int/Float locals use typed opcodes, "
-                         "Int | Float locals use the generic opcode, a.op(b) is a method call) - observed, not modelled"]
+                         "the bytecode compiler's choice of opcode / overload per static type (literals fold, Int/Float locals use typed "
+                         "opcodes, Int | Float locals use the generic opcode, a.op(b) on Int locals is bound to the native op@1, on "
+                         "union-typed locals it is resolved at run time) - observed through the program forms, not modelled",
+                         "0 / 1 / -1 raised to an exponent > 66 in c08.grid is evaluated by the plugin (Python integers), not by the "
+                         "extracted model (Coq's Z.pow is linear in the exponent)"]
     ctx.run_proof_gate()
     m = vlib.build_model_exact("C08")
     elk = vlib.build_elk()
@@ -422,46 +450,15 @@ def run(ctx):
         return
     B = 25
     starts = ([0] if ncorpus else []) + list(range(ncorpus, len(cases), B))
-    progs, members = [], {}
+    batches = []
     for bi, p0 in enumerate(starts):
         p1 = starts[bi + 1] if bi + 1 < len(starts) else len(cases)
-        src = "".join(filter(None, (variant_code(i, v, *cases[i]) for i in range(p0, p1) for v in VARIANTS)))
-        progs.append(("p%d" % p0, src))
-        members["p%d" % p0] = range(p0, p1)
+        stmts = [((i, v), variant_code(i, v, *cases[i]).rstrip("\n")) for i in range(p0, p1) for v in VARIANTS
+                 if variant_code(i, v, *cases[i])]
+        batches.append(("p%d" % p0, stmts, []))
     wd = os.path.join(ctx.workdir, "variants")
-    res = vlib.run_programs(elk, progs, wd, timeout=240)
-    got, rerun = {}, []
-
-    def take(out):
-        for l in out.splitlines():
-            f = l.split(" ")
-            if len(f) == 3 and f[0].isdigit() and f[1] in VARIANTS:
-                got[(int(f[0]), f[1])] = f[2]
-    for name, (rc_, out, cls) in res.items():
-        if cls == "ok":
-            take(out)
-        else:
-            rerun.append(name)
-    budget = ctx.n(2, 40)
-    singles = []
-    for name in sorted(rerun, key=lambda s: int(s[1:]))[:budget]:
-        for i in members[name]:
-            for v in VARIANTS:
-                code = variant_code(i, v, *cases[i])
-                if code:
-                    singles.append(("s%d_%s" % (i, v), code))
-    timeouts = 0
-    if singles:
-        res2 = vlib.run_programs(elk, singles, wd, timeout=120)
-        for name, (rc_, out, cls) in res2.items():
-            i, v = name[1:].split("_")
-            if cls == "ok":
-                take(out)
-            elif cls == "timeout":
-                timeouts += 1
-            else:
-                msg = next((x for x in out.splitlines() if "panic" in x or "rror" in x or "FAIL" in x), out[:160])
-                got[(int(i), v)] = "CRASH:" + cls + ":" + msg.strip()[:120].replace(" ", "_")
+    # a program that dies is resumed after the statement that killed it (every crash is isolated)
+    got, nprog, lost, rlog = run_resumable(elk, batches, wd, VARIANTS, timeout=600, max_rounds=ctx.n(8, 40))
     evals, distinct, dist, mism, samples = 0, set(), {}, 0, []
     for i, c in enumerate(cases):
         op, lk, a, rk, b = c
@@ -485,7 +482,9 @@ def run(ctx):
             ref = vals.get("union", vals.get("lit"))
             odd = sorted(v for v, o in vals.items() if o != ref)
             bad = ("variants-differ:" + "+".join(odd), "outputs differ between variants: %s" % outs)
-        elif not (op == "pow" and "F" in (lk, rk)) and set(vals.values()) != {model[str(i)]}:
+            if odd == ["lit"] and ref == "F %d" % fbits(-0.0) and vals["lit"] == "F 0":
+                cls = "negzero-result"      # one defect whatever the operator: a folded -0.0 is emitted as FLOAT_0
+        elif not (op == "pow" and "F" in (lk, rk)) and set(vals.values()) != {canon_model(model[str(i)])}:
             bad = ("model-differs", "all variants print %s, model says %s" % (sorted(set(outs.values())), model[str(i)]))
         if bad:
             mism += 1
@@ -493,12 +492,12 @@ def run(ctx):
                 ctx.fail("%s:%s" % (cls, bad[0]), what + bad[1], stream=stream, case=inputs[str(i)], impl=outs, model=model[str(i)],
                          oracle="every variant (literals=folded, typed locals=typed opcode, union-typed locals=generic opcode, "
                                 "a.op(b)=method call) must print the same result, equal to the model's")
-    if timeouts:
-        ctx.extra["c08.variants.timeouts_ignored"] = timeouts
-    if len(rerun) > budget:
-        ctx.extra["c08.variants.failing_batches_not_isolated"] = len(rerun) - budget
+    if lost:
+        ctx.broke("c08.variants: %d statements could not be run (compile error, time-out or too many crashes in one program)" % lost,
+                  "\n".join(rlog[:20]))
     ctx.stream(stream, evals, len(distinct),
                "seeded (operator, left, right) over Int (small, boundary, big) and Float (dyadic) operands x 17 operators, each as "
-               "3-4 Elk program variants run on `elk run` (25 cases per program, %d corpus cases first); evaluations = variant "
+               "3-5 Elk program variants (literals, typed locals, union-typed locals, a.op(b) on typed locals, a.op(b) on union-typed "
+               "locals) run on `elk run` (25 cases per program, %d corpus cases first); evaluations = variant "
                "outputs compared; oracle 1: all variants equal; oracle 2: equal to the extracted model (except float **)" % ncorpus,
-               samples, dist, mismatches=mism, programs=len(progs) + len(singles))
+               samples, dist, mismatches=mism, programs=nprog)
